@@ -303,11 +303,9 @@ class Canon:
                 else:
                     res.append(it)
             return res
-        res = rn(out)
-        for it in _flat(res):
-            if it[0] in ('bytes', 'missing', 'loop') and isinstance(it[1], str) and it[1].startswith('len:'):
-                self.fail(self.fn, f'length `{it[1][4:]}` governs stream data but is never written as a length prefix')
-        return res
+        # a tag that stays `len:<expr>` is a length that governs stream data without being the value of any length prefix:
+        # it is kept verbatim, so the two directions (and the layout signature) visibly differ
+        return rn(out)
 
     def items(self, prog: Sequence[tuple]) -> List[tuple]:
         out: List[tuple] = []
@@ -387,8 +385,18 @@ class Canon:
                 return ('bytes', self.binds[arg.id])
             if isinstance(r, ast.Call) and pf.dotted(r.func) == 'math.ceil' and len(r.args) == 1 and isinstance(r.args[0], ast.BinOp) and isinstance(r.args[0].op, ast.Div):
                 d = W.const_int(r.args[0].right)
-                self.facts.setdefault('missing_r', []).append(dict(n=r.args[0].left, div=d, node=info['node'], bind=info['bind'], view=info['view']))
+                self.facts.setdefault('missing_r', []).append(dict(n=r.args[0].left, div=d, rounding='ceil', node=info['node'], bind=info['bind'], view=info['view']))
                 return ('missing', self.count_tag(r.args[0].left))
+            if isinstance(r, ast.BinOp) and isinstance(r.op, ast.FloorDiv) and W.const_int(r.right) is not None:
+                d = W.const_int(r.right)
+                num = r.left
+                rounding = 'floor'
+                # (n + d - 1) // d  is the integer form of ceil(n / d)
+                if isinstance(num, ast.BinOp) and isinstance(num.op, ast.Add) and W.const_int(num.right) is not None:
+                    rounding = 'ceil' if W.const_int(num.right) == d - 1 else f'floor(n + {W.const_int(num.right)})'
+                    num = num.left
+                self.facts.setdefault('missing_r', []).append(dict(n=num, div=d, rounding=rounding, node=info['node'], bind=info['bind'], view=info['view']))
+                return ('missing', self.count_tag(num))
             if isinstance(r, ast.BinOp) and isinstance(r.op, ast.Mult):
                 tags = []
                 for side_ in (r.left, r.right):
@@ -405,15 +413,11 @@ class Canon:
         t = pf.nsrc(target)
         if isinstance(target, ast.Name):
             # loop variable bound to the type component of a field iteration
-            for tag, linfo in self.facts.get('loops', []) + self._open_loops:
-                pass
             role = self._loopvar_role(target.id)
             if role is None:
                 self.fail(target, f'converter receiver `{t}` is not a recognised loop variable')
             return role
         return t
-
-    _open_loops: List[Any] = []
 
     def _loopvar_role(self, name: str) -> Optional[str]:
         for n in ast.walk(self.fn):
@@ -455,7 +459,8 @@ class Canon:
             self.facts.setdefault('lookup_r', []).append((t, test))
             return [('present', self.items(present))]
         txt = pf.nsrc(test)
-        if txt == 'self.element_type in _numeric_types':
+        if txt in ('self.element_type in _numeric_types', 'is_numeric(self.element_type)', 'is_numeric(self._element_type)', 'type(self.element_type) in _numeric_types',
+                   'self.element_type.__class__ in _numeric_types'):
             self.facts['numeric_cond'] = test
             return [('cond', 'numeric-fast-path', self.items(then), self.items(orelse))]
         if self.side == 'w' and txt in (f'{self.value}.size > 0', f'{self.value}.size != 0', f'{self.value}.size'):
@@ -642,8 +647,8 @@ def _r3(ctx: Ctx, m: pf.Module, canon: Dict[str, Tuple[List[tuple], Canon, Canon
             n_r += 1
             cons = f'{F}::{cname}.{FROM}::missing-bit addressing'
             msg = []
-            if info['div'] != 8:
-                msg.append(f'reads ceil(n / {info["div"]}) missing bytes (expected ceil(n / 8))')
+            if info['div'] != 8 or info['rounding'] != 'ceil':
+                msg.append(f'reads {info["rounding"]}(n / {info["div"]}) missing bytes (expected ceil(n / 8): the writer emits a final partial byte whenever n % 8 != 0)')
             ctx.need(info['bind'] is not None, f'{cname}.{FROM}: missing bytes are not bound to a name')
             mb = info['bind']
             # counter of the enclosing loop
@@ -787,6 +792,9 @@ def _r5(ctx: Ctx, m: pf.Module, classes: Dict[str, ast.ClassDef], canon: Dict[st
         ctx.ok('R5', cons, 'absent')
     else:
         why = _numeric_fast_path_dead(ctx, m, classes)
+        conds = {pf.nsrc(c.facts['numeric_cond']) for c in (cw, cr) if 'numeric_cond' in c.facts}
+        if conds != {'self.element_type in _numeric_types'}:
+            why = None  # some direction tests the element type in a way that can succeed
         if why is not None:
             ctx.ok('R5', cons, {'dead': why})
             ctx.info(f'{F}::tndarray: the numeric raw-buffer fast path of _convert_to/from_encoding is dead code ({why}); if revived it would send C-ordered arrays '
@@ -794,7 +802,7 @@ def _r5(ctx: Ctx, m: pf.Module, classes: Dict[str, ast.ClassDef], canon: Dict[st
         else:
             ctx.bad('R5', cons, 'the numeric fast path is (or may be) live: it writes `value.data`, the array\'s memory buffer, which is row-major for C-ordered arrays and '
                                 'not available for non-contiguous ones, while the engine decodes column-major: np.array([[1, 2], [3, 4]]) arrives as [[1, 3], [2, 4]]',
-                    m.path, cw.facts['numeric_cond'].lineno)
+                    m.path, (cw.facts.get('numeric_cond') or cr.facts['numeric_cond']).lineno)
 
 
 # --------------------------------------------------------------------------------------
@@ -1145,13 +1153,13 @@ def _r4(ctx: Ctx, m: pf.Module, classes: Dict[str, ast.ClassDef], canon: Dict[st
         ctx.check(not msg, 'R4', cons, '; '.join(msg), sc_path, es.line, detail={'layout': _show_sig(py), 'arm': armname})
     ctx.need(n >= 14, f'expected >= 14 Python classes compared with engine arms, compared {n}')
     # arms never selected by a Python class: only engine-internal types may remain
-    py_names = {_scala_type_name(ctx, c) for c in classes.values()}
+    enc_names = {_scala_type_name(ctx, c) for cn, c in classes.items() if cn in canon and canon[cn][0] != [('raise',)] and cn != '_freeze_this_type'}
     for i, (tn, binder, body) in enumerate(es.arms):
         if i in used_arms:
             continue
-        ctx.check(tn not in py_names and tn == 'TBinary', 'R4', f'{ETYPE}::fromPythonTypeEncoding[{tn}]::has a Python encoder',
-                  f'arm `case {tn}` is not reached by any Python class with an encoder' + (' although Python has that type' if tn in py_names else ''), sc_path, es.line,
-                  detail='engine-only type (no Python counterpart)')
+        ctx.check(tn not in enc_names, 'R4', f'{ETYPE}::fromPythonTypeEncoding[{tn}]::reachable',
+                  f'arm `case {tn}` is shadowed by an earlier arm: Python values of that type are decoded with the layout of the earlier, more general arm', sc_path, es.line,
+                  detail='engine-only type (no Python class with an encoder)')
 
 
 # --------------------------------------------------------------------------------------
